@@ -150,6 +150,54 @@ CORPUS_SETS = [
         '<linearGradient id="bg" gradientUnits="userSpaceOnUse" x1="4" y1="4" x2="124" y2="124"><stop offset="0" stop-color="#00aa00"/><stop offset="1" stop-color="#0000aa"/></linearGradient></defs>'
         '<path d="M4,4 L124,4 L124,124 L4,124 Z" fill="url(#bg)"/><circle cx="64" cy="64" r="50" fill="url(#face)"/></svg>',
     ]),
+    # round 7 (interactions and state): one gradient DEFINITION painted on several shapes. A bounding-box gradient takes
+    # its geometry from each shape's own box (a per-glyph memo keyed by the fill alone gets the second shape wrong); a
+    # user-space gradient under three copies of one outline at three places is moved into the donor's frame once per copy
+    # (the second reuse is the cache hit)
+    ("one-gradient-many-shapes", ["glyf_colr_1", "picosvg"], 0.1, [
+        SVG_HEAD + '<defs><linearGradient id="g"><stop offset="0" stop-color="#ff0000"/><stop offset="1" stop-color="#0000ff"/></linearGradient>'
+        '<radialGradient id="r"><stop offset="0" stop-color="#ffffff"/><stop offset="1" stop-color="#006600"/></radialGradient></defs>'
+        '<path d="M8,8 L48,8 L48,28 L8,28 Z" fill="url(#g)"/><path d="M60,8 L120,8 L120,58 L60,58 Z" fill="url(#g)"/>'
+        '<path d="M10,70 L50,70 L50,110 L10,110 Z" fill="url(#r)"/><path d="M60,66 L124,66 L124,122 L60,122 Z" fill="url(#r)"/></svg>',
+        SVG_HEAD + '<defs><linearGradient id="u" gradientUnits="userSpaceOnUse" x1="0" y1="0" x2="128" y2="0"><stop offset="0" stop-color="#ff0000"/><stop offset="1" stop-color="#0000ff"/></linearGradient></defs>'
+        '<path d="M10,20 L38,20 L38,48 L10,48 Z" fill="url(#u)"/><path d="M50,40 L78,40 L78,68 L50,68 Z" fill="url(#u)"/><path d="M90,60 L118,60 L118,88 L90,88 Z" fill="url(#u)"/></svg>',
+    ]),
+    # bars of one width on one baseline: one outline under a one-axis scale AND a translation along the other axis
+    ("bars", ["glyf_colr_0", "glyf_colr_1", "picosvg"], 0.1, [
+        SVG_HEAD + '<path d="M16,60 L32,60 L32,100 L16,100 Z" fill="#c62828"/><path d="M48,40 L64,40 L64,100 L48,100 Z" fill="#2e7d32"/>'
+        '<path d="M80,28 L96,28 L96,100 L80,100 Z" fill="#1565c0"/></svg>',
+        SVG_HEAD + '<path d="M20,16 L60,16 L60,32 L20,32 Z" fill="#6a1b9a"/><path d="M20,48 L80,48 L80,64 L20,64 Z" fill="#ff8f00"/>'
+        '<path d="M20,80 L92,80 L92,96 L20,96 Z" fill="#00838f"/></svg>',
+    ]),
+    # a glyph that shares nothing, between two glyphs that share a shape (OT-SVG regroups the sharers; the loner's glyph
+    # id moves)
+    ("loner-between-sharers", ["picosvg", "glyf_colr_1"], 0.1, [
+        SVG_HEAD + '<path d="M20,20 L60,20 L60,60 L20,60 Z" fill="#ff0000"/></svg>',
+        SVG_HEAD + '<path d="M64,10 L118,118 L10,118 Z" fill="#00aa00"/></svg>',
+        SVG_HEAD + '<path d="M50,56 L90,56 L90,96 L50,96 Z" fill="#0000ff"/></svg>',
+        SVG_HEAD + '<path d="M30,30 L100,40 L64,100 Z" fill="#444444"/></svg>',
+    ]),
+    # one outline at one place in two glyphs, filled by a user-space radial gradient with a non-uniform gradientTransform:
+    # the second use is a cache hit with the identity as reuse transform and must keep the gradient's residual transform
+    ("second-use-squashed-radial", ["glyf_colr_1", "picosvg"], 0.1, [
+        SVG_HEAD + '<defs><radialGradient id="q" gradientUnits="userSpaceOnUse" cx="64" cy="128" r="60" gradientTransform="scale(1 .5)"><stop offset="0" stop-color="#ffff00"/><stop offset="1" stop-color="#aa0000"/></radialGradient></defs>'
+        '<path d="M10,30 L118,30 L118,98 L10,98 Z" fill="url(#q)"/></svg>',
+        SVG_HEAD + '<defs><radialGradient id="q" gradientUnits="userSpaceOnUse" cx="64" cy="128" r="60" gradientTransform="scale(1 .5)"><stop offset="0" stop-color="#ffff00"/><stop offset="1" stop-color="#aa0000"/></radialGradient></defs>'
+        '<path d="M10,30 L118,30 L118,98 L10,98 Z" fill="url(#q)"/><path d="M4,4 L20,4 L20,20 L4,20 Z" fill="#0000ff"/></svg>',
+    ]),
+    # two radial gradients in one glyph with the same circle and stops, differing only in a non-uniform gradientTransform
+    # about the viewBox origin (an origin-centred drawing): two definitions, not one
+    ("radials-differing-in-transform-only", ["picosvg", "glyf_colr_1"], 0.1, [
+        '<svg xmlns="http://www.w3.org/2000/svg" viewBox="-64 -64 128 128"><defs>'
+        '<radialGradient id="a" gradientUnits="userSpaceOnUse" cx="0" cy="0" r="56" gradientTransform="scale(1 .3)"><stop offset="0" stop-color="#ffffff"/><stop offset="1" stop-color="#cc0000"/></radialGradient>'
+        '<radialGradient id="b" gradientUnits="userSpaceOnUse" cx="0" cy="0" r="56" gradientTransform="scale(.3 1)"><stop offset="0" stop-color="#ffffff"/><stop offset="1" stop-color="#cc0000"/></radialGradient></defs>'
+        '<path d="M-60,-20 L60,-20 L60,20 L-60,20 Z" fill="url(#a)"/><path d="M-20,-60 L20,-60 L0,-24 Z" fill="url(#b)"/><path d="M-20,60 L20,60 L0,24 Z" fill="url(#b)"/></svg>',
+    ]),
+    # a palette variable together with an opacity (each alone is everyday), next to the same colour spelled plainly
+    ("palette-variable-with-opacity", ["glyf_colr_0", "glyf_colr_1"], 0.1, [
+        SVG_HEAD + '<path d="M10,10 L60,10 L60,60 L10,60 Z" fill="var(--color1, #202020)" opacity="0.5"/><path d="M70,10 L120,10 L120,60 L70,60 Z" fill="var(--color2, #ff0000)"/>'
+        '<path d="M10,70 L60,70 L60,120 L10,120 Z" fill="#202020" opacity="0.5"/><path d="M70,70 L120,70 L100,120 Z" fill="#00aa00"/></svg>',
+    ]),
     # reused shapes that carry gradients with their own (non-uniform) gradientTransform, moved and scaled
     ("gradient-on-reused-shape", ["glyf_colr_1", "picosvg"], 0.1, [
         SVG_HEAD + '<defs><radialGradient id="a" gradientUnits="userSpaceOnUse" cx="40" cy="70" r="14" gradientTransform="matrix(1 0 0 0.5 0 35)">'
@@ -268,6 +316,33 @@ def run_pairs(report, n, rng):
             return
     report.sample(dict(kind="e2e-pair", format=fmt, reuse_tolerance=tol, source=srcs[0][1]))
 
+    # "the documented negative tolerance": the flag's help says any negative value disables reuse (F30, fixed: only -1 did,
+    # every other negative value failed with ZeroDivisionError). Through the real command line, in each format: the
+    # build succeeds and stores every copy separately, exactly like -1
+    _, nsrcs = e2e.gen_sources(random.Random(11), n=2, stress=True)
+    for fmt, neg in (("glyf_colr_1", -0.5), ("picosvg", -2.0), ("glyf_colr_0", -0.001)):
+        over = dict(color_format=fmt, upem=1000, ascender=800, descender=-200, width=1000)
+        case = dict(kind="e2e-pair", format=fmt, reuse_tolerance=neg, sources=[s[1] for s in nsrcs])
+        report.hist("pairs.kind", "negative tolerance other than -1")
+        try:
+            f_neg, cfg, picos, _ = build.build_cli(dict(over, reuse_tolerance=neg), nsrcs, "flag")
+            f_off, _, _, _ = build.build_cli(dict(over, reuse_tolerance=-1.0), nsrcs, "file")
+        except Exception as ex:
+            case["error"] = f"{type(ex).__name__}: {ex}"[-1500:]
+            report_failure(report, f"negative_tolerance_{fmt}", case)
+            return
+        report.count(("negative", fmt, neg), True)
+        for (fn, text, cps), pico in zip(nsrcs, picos):
+            p_neg, pr1 = glyph_picture(f_neg, e2e.glyph_for(f_neg, cps))
+            p_off, pr2 = glyph_picture(f_off, e2e.glyph_for(f_off, cps))
+            probs = pr1 + pr2 + picture.compare_pictures(p_off, p_neg, eps=0.01, extra_eps=0.0, palette_check="COLR" in f_neg)
+            under = sum(1 for it, _ in picture.flatten(p_neg) if len(it) > 4 and abs(it[4] - 1.0) > 1e-9)
+            if under:
+                probs.append(f"{under} layer(s) drawn through a reuse transform although reuse is disabled")
+            if probs:
+                case.update(source=fn, problems=probs[:4])
+                report_failure(report, f"negative_tolerance_{fmt}", case)
+                return
     # known finding: tolerance exactly 0 is non-negative but crashes in picosvg's normalize
     docs, srcs = e2e.gen_sources(random.Random(7), n=2)
     try:
